@@ -44,7 +44,8 @@ class Contract:
     """Sidecar contract of a function/property.  Expressions are Python source strings in the contract language."""
 
     def __init__(self, qualname, params=None, result=None, requires=(), ensures=(), raises=None, invariants=None,
-                 pure=True, modifies=(), source=None, kind="proved", note="", decreases=None, locals=None, defaults=None):
+                 pure=True, modifies=(), source=None, kind="proved", note="", decreases=None, locals=None, defaults=None,
+                 ghost=None, ghost_code=None, definitional=()):
         self.qualname = qualname              # "Class.attr" or "func"
         self.params = dict(params or {})       # name -> type string (including 'self')
         self.result = result                   # type string or None
@@ -57,6 +58,9 @@ class Contract:
         self.source = source                   # (relative file, qualname) of the real code, None for assumed contracts
         self.locals = dict(locals or {})       # local variable name -> type string (for containers created empty)
         self.defaults = dict(defaults or {})
+        self.definitional = list(definitional)   # defining equations of spec functions at (self, args): assumed on entry AND at call sites
+        self.ghost = dict(ghost or {})         # ghost parameter name -> type string
+        self.ghost_code = dict(ghost_code or {})   # "after:<unparsed statement>" -> ghost statement(s) (python source)
         self.kind = kind                       # 'proved' (has a body that pyvc checks) | 'assumed' (dependency axiom)
         self.note = note
 
@@ -142,6 +146,9 @@ class Executor:
                     return V(box(v), ty)
             elif is_ref(v.ty):
                 return V(v.term, ty)
+        if isinstance(v.ty, OptT) and isinstance(v.ty.inner, T._Prim) and v.ty.inner == ty:
+            self.model.need_box(ty)
+            return V(unbox(v.term, ty), ty)       # the value of a non-None optional primitive (callers check None-ness)
         if is_ref(ty) and is_ref(v.ty):
             return V(v.term, ty)
         if ty is REAL and v.ty is INT:
@@ -571,7 +578,21 @@ class Executor:
         m = getattr(self, "st_" + type(s).__name__, None)
         if m is None:
             raise Unsupported(f"statement {type(s).__name__} at line {s.lineno}")
-        return m(s, st)
+        outs = m(s, st)
+        gc = self.contract.ghost_code if (self.contract is not None and getattr(self.contract, "ghost_code", None)) else None
+        if gc:
+            key = "after:" + ast.unparse(s)
+            if key in gc:
+                self.ghost_hits = getattr(self, "ghost_hits", set()) | {key}
+                code = ast.parse(gc[key]).body
+                new = []
+                for o in outs:
+                    if o.kind == "fall":
+                        new.extend(self.run(code, o.state))
+                    else:
+                        new.append(o)
+                outs = new
+        return outs
 
     def st_Expr(self, s, st):
         if isinstance(s.value, ast.Constant):
